@@ -20,3 +20,27 @@ pub fn install_quiet_hook() {
 pub fn take_last_location() -> String {
     LAST.with(|l| std::mem::take(&mut *l.borrow_mut()))
 }
+
+/// A logger that formats every record (so that the arguments of the emulator's log calls are really
+/// evaluated, as they are under the real binary's env_logger) and throws the text away.
+struct EvalLogger;
+impl log::Log for EvalLogger {
+    fn enabled(&self, _m: &log::Metadata) -> bool {
+        true
+    }
+    fn log(&self, record: &log::Record) {
+        let s = format!("{}", record.args());
+        std::hint::black_box(s);
+    }
+    fn flush(&self) {}
+}
+static EVAL_LOGGER: EvalLogger = EvalLogger;
+
+/// Switch evaluation of log arguments on/off (off by default: logging is disabled in the harness).
+pub fn eval_log_args(on: bool) {
+    static SET: Once = Once::new();
+    SET.call_once(|| {
+        let _ = log::set_logger(&EVAL_LOGGER);
+    });
+    log::set_max_level(if on { log::LevelFilter::Trace } else { log::LevelFilter::Off });
+}
